@@ -592,7 +592,10 @@ func (s *Sim) genesisBehaviour(orig, twin sdk.Context, r *Rng) {
 	memos := []string{
 		mk(&MPayload{Proto: "PROTOCOL_INTERNAL", Recipient: e.Rcpt[1].Addr.String(), Passthrough: []byte{}}, false),
 		mk(&MPayload{Proto: "PROTOCOL_INTERNAL", Recipient: e.Rcpt[1].Addr.String(), Passthrough: []byte{}}, true),
-		mk(&MPayload{Proto: "PROTOCOL_INTERNAL", Recipient: e.Rcpt[1].Addr.String(), Passthrough: bytes.Repeat([]byte{7}, int(s.Model.Limit)+1)}, false),
+	}
+	if s.Model.Limit < 20000 {
+		// one byte over the limit in force
+		memos = append(memos, mk(&MPayload{Proto: "PROTOCOL_INTERNAL", Recipient: e.Rcpt[1].Addr.String(), Passthrough: bytes.Repeat([]byte{7}, int(s.Model.Limit)+1)}, false))
 	}
 	for _, d := range CCTPDomains {
 		memos = append(memos, mk(&MPayload{Proto: "PROTOCOL_CCTP", Domain: d, MintRecipient: pad32(9), PTNull: true}, r.Intn(2) == 0))
